@@ -3,6 +3,6 @@ From IV Require Import Base.Bytes Base.BytesFacts Model.Policy Model.Smtp Model.
 From Coq Require Import ZifyBool ZifyNat Lia Permutation.
 From IV Require Import Proofs.HooksThms.
 Theorem first_answer_wins : forall (E R : Type) (ls1 ls2 : list (E -> option R)) l e r,
-  (forall l', In l' ls1 -> l' e = None) -> l e = Some r -> emit (ls1 ++ l :: ls2) e = Some r.
+  (forall l', In l' ls1 -> l' e = None) -> l e = Some r -> broker_emit (ls1 ++ l :: ls2) e = Some r.
 Proof. exact HooksThms.first_answer_wins. Qed.
 Print Assumptions first_answer_wins.
